@@ -1171,6 +1171,12 @@ class Intervals:
             ds = ADT_DISCRS.get(base)
             if ds and tr is not None and all(0 <= d < (1 << 63) for d in ds):
                 new_iv = (min(ds), max(ds))
+            # `Err(e)?;` / `None?;` as an early return: the value whose discriminant is read was built as a known variant
+            # a few single-assignment temporaries ago (aggregate -> Try::branch), so only one arm of the switch is live
+            if not rv[1][1]:
+                kv = self._known_variant(rv[1][0])
+                if kv is not None:
+                    new_iv = (kv, kv)
         elif k == "agg":
             kd = rv[1]
             if kd[0] == "adt" and kd[1] in ("core::ops::range::Range", "core::ops::range::RangeInclusive") and len(rv[2]) == 2:
@@ -2209,6 +2215,48 @@ class Intervals:
         if feasible:
             outs.append((otherwise, s2))
         return outs
+
+    _KV_TYPES = ("core::result::Result", "core::option::Option", "core::ops::control_flow::ControlFlow")
+
+    def _known_variant(self, l, depth=0):
+        """variant index (== discriminant for Result / Option / ControlFlow) of the compiler temporary `l`, if it is assigned
+        exactly once, never borrowed mutably, and that assignment builds a fixed variant: an aggregate, a move of such a
+        temporary, or `Try::branch` of one (Ok -> Continue, Err -> Break, Some -> Continue, None -> Break)"""
+        b = self.body
+        if depth > 4 or l is None or l <= b.argc or not str(b.local_name(l)).startswith("_"):
+            return None
+        if not b.locals[l][0].startswith(self._KV_TYPES):
+            return None
+        sd = b.single_def(l)
+        if sd is None:
+            return None
+        for blk in b.blocks:
+            for st_ in blk.stmts:
+                if st_[0] == "A" and st_[2][0] in ("ref", "raw") and (st_[2][1] == "mut" or "Mut" in str(st_[2][1])) and st_[2][2][0] == l:
+                    return None
+                if st_[0] == "A" and st_[1][0] == l and st_[1][1]:
+                    return None     # a write through a projection of l
+        rv = sd[2]
+        if hasattr(rv, "callee"):
+            c = rv.callee
+            if c.endswith(" as core::ops::try_trait::Try>::branch") and len(rv.args) == 1:
+                a = op_local(rv.args[0])
+                p = op_place(rv.args[0])
+                if a is None or p is None or p[1]:
+                    return None
+                v = self._known_variant(a, depth + 1)
+                if v is None:
+                    return None
+                if c.startswith("<core::result::Result<"):
+                    return v            # Ok(0) -> Continue(0), Err(1) -> Break(1)
+                if c.startswith("<core::option::Option<"):
+                    return 1 - v        # None(0) -> Break(1), Some(1) -> Continue(0)
+            return None
+        if rv[0] == "agg" and rv[1][0] == "adt" and rv[1][1] in self._KV_TYPES:
+            return int(rv[1][2])
+        if rv[0] == "use" and rv[1][0] in ("c", "m") and not rv[1][1][1]:
+            return self._known_variant(rv[1][1][0], depth + 1)
+        return None
 
     # ---- site queries -------------------------------------------------------------------------
     def state_at_term(self, bb):
